@@ -582,10 +582,20 @@ def conn_hostile(rng, T):
     if rng.random() < 0.4:
         dev["chunk"] = rng.randrange(1, 10 ** 6)
     t0 = []
-    for i in range(rng.randint(0, 4)):
+    odd = rng.random() < 0.5
+    for i in range(rng.randint(0, 4) + (2 if odd else 0)):
         t0.append(["sleep", rng.choice([0.2, 1.0, 3.0])])
-        t0.append(["put", "MAIN", "VOL", f"-{20 + i}.0"])
+        if odd and rng.random() < 0.7:
+            # what the device answers depends on what it was sent: commands of every shape ('=' / ':' inside the value, no '=' at all, empty,
+            # unknown functions), many of them answered with an error line
+            t0.append(rng.choice([["put", "MAIN", "ZONENAME", f"TV=HDMI{i}"], ["put", "MAIN", "ZONENAME", f"a:b=c{i}"], ["put", "MAIN", "ZONENAME", ""],
+                                  ["raw", f"garbage{i}"], ["raw", f"@MAIN:VOL{i}"], ["raw", ""], ["raw", f"=={i}"], ["get", "MAIN", f"NOSUCH{i}"],
+                                  ["get", "FOO", f"BAR{i}"], ["put", "MAIN", f"X{i}", "=?"], ["raw", f"@MAIN:ZONENAME=x=y=z{i}"]]))
+        else:
+            t0.append(["put", "MAIN", "VOL", f"-{20 + i}.0"])
     t0 += [["sleep", max(1.0, t + 3.0)], ["connected"]]
+    if odd:
+        dev["restrict_puts"] = {"p": 0.6, "seed": rng.randrange(10 ** 6)}
     return {"kind": "conn", "device": dev, "log_size": rng.choice([0, 0, 5]), "threads": [t0], "pre_register": [1], "sentinels": k, "final_wait": 0}
 
 
